@@ -555,11 +555,11 @@ class MP4Tags(DictProxy, Tags):
             self.__update_offset_table(fileobj, ">%dI", atom, delta, offset)
         for atom in moov.findall(b'co64', True):
             self.__update_offset_table(fileobj, ">%dQ", atom, delta, offset)
-        try:
-            for atom in atoms[b"moof"].findall(b'tfhd', True):
-                self.__update_tfhd(fileobj, atom, delta, offset)
-        except KeyError:
-            pass
+        # there can be more than one movie fragment
+        for root in atoms.atoms:
+            if root.name == b"moof":
+                for atom in root.findall(b'tfhd', True):
+                    self.__update_tfhd(fileobj, atom, delta, offset)
 
     def __parse_data(self, atom, data):
         pos = 0
